@@ -671,7 +671,12 @@ def dup_stratum(ctx):
     d = SCRATCH / f"dup-{os.getpid()}"
     for name, inputs in [("same-key-twice", [("a", 1), ("b", 2), ("a", 3)]),
                          ("equal-number-keys", [(0.5, 1), (np.float64(0.5), 2)]),
-                         ("one-and-true", [(1, 5), (True, 6), (2, 7)])]:
+                         ("one-and-true", [(1, 5), (True, 6), (2, 7)]),
+                         # keys that are NOT equal but are written alike: two NaN (same file name)
+                         ("two-nan-keys", [(float("nan"), 1), (float("nan"), 2)]),
+                         ("nan-among-numbers", [(0.5, 1), (float("nan"), 2), (2.0, 3), (float("nan"), 4)]),
+                         # equal under == but written differently
+                         ("one-and-one-point-zero", [(1, 5), (1.0, 6)])]:
         for par in (False, True):
             shutil.rmtree(d, ignore_errors=True)
             plain = parallelise(dupfn, inputs, parallel=par, max_workers=2, disable_tqdm=True)
@@ -683,7 +688,7 @@ def dup_stratum(ctx):
             M = None
             if ctx.driver_ok:
                 labels = {}
-                ins = [[labels.setdefault(k, f"k{len(labels)}"), 10 + i] for i, (k, _) in enumerate(inputs)]
+                ins = [[labels.setdefault(Cache().name_fn(k), f"k{len(labels)}"), 10 + i] for i, (k, _) in enumerate(inputs)]
                 (resp,) = driver.call_batch([{"op": "c19", "mode": "gen", "sizes": [[10 + i, 5] for i in range(len(inputs))],
                                               "inputs": ins, "script": [["run"]]}])
                 out = resp[0]["out"]
